@@ -610,4 +610,28 @@ theorem C13_copy_cpdag (m : Nat) (ops : List Op) (hops : ∀ op ∈ ops, op.Cpda
   obtain ⟨h1, h2, h3⟩ := cinv_run ops _ (init_cinv m) hops r hr
   exact copy_same_cpdag r.1 h1 h2 h3
 
+/-! ## non-vacuity, and why the hypothesis is needed (kernel-checked *tests* on concrete histories) -/
+
+/-- lagged directed edge, contemporaneous undirected edge, a guard rejection, growth, copy, shrink, copy -/
+def exCpdag : List Op :=
+  [.addEdge (.one 0) (0, -1) (1, 0), .addEdge (.one 1) (0, 0) (2, 0), .addEdge (.one 1) (0, -2) (1, -1),
+   .addEdges (.one 0) [((2, -2), (1, 0)), ((1, -1), (1, 0))], .setMaxLag 3, .copy, .setMaxLag 1, .copy]
+
+example : ∀ op ∈ exCpdag, op.CpdagSafe := by
+  intro op hop
+  simp only [exCpdag, List.mem_cons, List.not_mem_nil, or_false] at hop
+  rcases hop with rfl | rfl | rfl | rfl | rfl | rfl | rfl | rfl <;>
+    simp [Op.CpdagSafe, VarDistinct]
+
+example : (run cfgCpdag (init cfgCpdag 2) exCpdag).map (fun r => (r.2, r.1.layers.map (·.edges.length))) =
+    [(false, [2, 0]), (false, [2, 3]), (true, [2, 3]), (false, [5, 3]), (false, [8, 4]), (false, [8, 4]),
+     (false, [2, 2]), (false, [2, 2])] := by decide
+
+/-- the hypothesis `NoConf` of `copy_same_cpdag` cannot be dropped: the bulk addition
+`[x(0) -> y(0), y(0) -> x(0)]` is accepted (its members are checked against the old graph only – known
+finding C03-tscpdag-bulk-self-conflict, outside `Op.CpdagSafe`) and `copy()` of the state it leaves raises -/
+theorem C13_counterexample_copy_conflict :
+    (run cfgCpdag (init cfgCpdag 1) [.addEdges (.one 0) [((0, 0), (1, 0)), ((1, 0), (0, 0))], .copy]).map (·.2) =
+      [false, true] := by decide
+
 end C13
